@@ -749,7 +749,26 @@ func (x *Exec) applyContract(st *State, fn *ssa.Function, cts []*Contract, args 
 				st.schemas = append(st.schemas, &schema{vars: cl.vars, expr: cl.expr, env: env, text: fmt.Sprintf("%s@%d:%s", ct.label(), x.schemaCtr, cl.text)})
 				continue
 			}
-			st.assume(x.assumeClause(st, env, cl, func(n string, v Value) { env.vars[n] = v }))
+			fact := x.assumeClause(st, env, cl, func(n string, v Value) { env.vars[n] = v })
+			// what a callee guarantees about its (uninterpreted) result is of use only where that
+			// result matters: a definitional fact for the relevance filter
+			{
+				var leaves []*Term
+				for _, rv := range vals {
+					flatten(rv, &leaves)
+				}
+				tv := termVars(fact)
+				var defs []*Term
+				for _, l := range leaves {
+					if l.op == "v" && tv[l.id] {
+						defs = append(defs, l)
+					}
+				}
+				if len(defs) > 0 {
+					registerDef(fact, defs...)
+				}
+			}
+			st.assume(fact)
 		}
 		if ct.trusted != "" {
 			x.note("trusted contract " + ct.label() + ": " + ct.trusted)
@@ -1422,7 +1441,7 @@ func (x *Exec) evalLetFork(st *State, env *Env, e Expr) []specOut {
 		if _, bound := env.lookup(id.name); !bound {
 			_, isSpec := x.specs[id.name]
 			switch id.name {
-			case "sq", "abs", "min", "max", "sqrt", "ite", "real", "floor", "len", "old", "pre", "isnil", "sin", "cos", "nsent", "sent", "samecell", "maphas", "mapval", "nev", "evarg", "evptr", "evbefore", "evres", "merged", "pow2", "nevmatch":
+			case "sq", "abs", "min", "max", "sqrt", "ite", "real", "floor", "len", "old", "pre", "isnil", "sin", "cos", "nsent", "sent", "samecell", "maphas", "mapval", "nev", "evarg", "evptr", "evbefore", "evres", "merged", "folded", "pow2", "nevmatch":
 				isSpec = true
 			}
 			if isSpec {
